@@ -6,6 +6,7 @@ import (
 	"go/constant"
 	"go/token"
 	"go/types"
+	"sort"
 	"strings"
 
 	"golang.org/x/tools/go/packages"
@@ -36,6 +37,73 @@ func (ex *Exec) loopOrdinal(pos token.Pos) int {
 	return 0
 }
 func (ex *Exec) loopOrdinalPeek(pos token.Pos) int { return ex.loopOrdinal(pos) }
+
+// alignLoops numbers the loops of body. Normally a loop's number is its position in source order, which is also the
+// number its contract is filed under. When the hinted loop contracts do not line up with the loops at their positions
+// (a loop was added or removed), the contracts are re-aligned by their text hints, in order; loops that no contract
+// claims get numbers from 1001 on (no invariant: everything they modify is havocked).
+func alignLoops(body ast.Node, fc *FuncContract) map[token.Pos]int {
+	m := loopIndex(body)
+	if fc == nil || len(fc.Loops) == 0 {
+		return m
+	}
+	type srcLoop struct {
+		pos  token.Pos
+		text string
+	}
+	var src []srcLoop
+	ast.Inspect(body, func(nd ast.Node) bool {
+		switch l := nd.(type) {
+		case *ast.ForStmt:
+			t := ""
+			if l.Cond != nil {
+				t = exprString(l.Cond)
+			}
+			src = append(src, srcLoop{l.Pos(), t})
+		case *ast.RangeStmt:
+			src = append(src, srcLoop{l.Pos(), "range " + exprString(l.X)})
+		}
+		return true
+	})
+	var ords []int
+	for n := range fc.Loops {
+		ords = append(ords, n)
+	}
+	sort.Ints(ords)
+	aligned := true
+	for _, n := range ords {
+		h := fc.Loops[n].Hint
+		if h == "" {
+			continue
+		}
+		if n < 1 || n > len(src) || !strings.Contains(noSpace(src[n-1].text), noSpace(h)) {
+			aligned = false
+		}
+	}
+	if aligned {
+		return m
+	}
+	out := map[token.Pos]int{}
+	used := map[int]bool{}
+	j := 0
+	for _, n := range ords {
+		h := fc.Loops[n].Hint
+		for k := j; k < len(src); k++ {
+			if h == "" || strings.Contains(noSpace(src[k].text), noSpace(h)) {
+				out[src[k].pos] = n
+				used[k] = true
+				j = k + 1
+				break
+			}
+		}
+	}
+	for k, l := range src {
+		if !used[k] {
+			out[l.pos] = 1001 + k
+		}
+	}
+	return out
+}
 
 func loopIndex(body ast.Node) map[token.Pos]int {
 	m := map[token.Pos]int{}
@@ -316,7 +384,7 @@ func (ex *Exec) callsiteChecks(e *ast.CallExpr, args []Val) {
 	}
 	txt := noSpace(exprString(e))
 	for _, cc := range ex.fc.Callsites {
-		if !strings.HasPrefix(txt, noSpace(cc.CallText)) {
+		if cc.Stmt || !strings.HasPrefix(txt, noSpace(cc.CallText)) {
 			continue
 		}
 		ex.callsitesUsed[cc] = true
@@ -337,6 +405,42 @@ func (ex *Exec) callsiteChecks(e *ast.CallExpr, args []Val) {
 		}
 		g := ex.specBool(sc, cc.Req)
 		ex.assert(kind, "callsite["+lab+"]", g)
+	}
+}
+
+// stmtChecks proves (and then assumes) the "at" clauses attached to the statement about to be executed.
+func (ex *Exec) stmtChecks(s ast.Stmt) {
+	if ex.fc == nil || len(ex.fc.Callsites) == 0 || len(ex.code) > 1 || ex.st.dead || ex.quiet > 0 {
+		return
+	}
+	switch s.(type) {
+	case *ast.AssignStmt, *ast.ExprStmt, *ast.ReturnStmt, *ast.IncDecStmt, *ast.BranchStmt, *ast.ForStmt, *ast.IfStmt, *ast.RangeStmt:
+	default:
+		return
+	}
+	txt := ""
+	for _, cc := range ex.fc.Callsites {
+		if !cc.Stmt {
+			continue
+		}
+		if txt == "" {
+			txt = noSpace(ex.nodeText(s))
+		}
+		if !strings.HasPrefix(txt, noSpace(cc.CallText)) {
+			continue
+		}
+		ex.callsitesUsed[cc] = true
+		sc := ex.specHere(s.Pos())
+		sc.where = cc.Req.Line
+		if n := len(ex.entryStack); n > 0 {
+			// entry(...) refers to the entry of the innermost enclosing loop, as in its invariants
+			sc.entry = ex.entryStack[n-1]
+		}
+		kind, lab := "F", cc.Req.Label
+		if j := strings.Index(lab, ":"); j == 1 {
+			kind, lab = lab[:1], lab[2:]
+		}
+		ex.assert(kind, "at["+lab+"]", ex.specBool(sc, cc.Req))
 	}
 }
 
@@ -496,7 +600,7 @@ func (ex *Exec) inlineBody(name string, sig *types.Signature, ftype *ast.FuncTyp
 	ex.pendingLabel = ""
 	ex.pkg = pkg
 	if newCode {
-		ex.code = append(ex.code, &codeCtx{name: name, pkg: pkg, fc: fc, loopIdx: loopIndex(body)})
+		ex.code = append(ex.code, &codeCtx{name: name, pkg: pkg, fc: fc, loopIdx: alignLoops(body, fc)})
 		ex.findBoxed(body, pkg.TypesInfo)
 		ex.loops = nil
 	}
@@ -787,6 +891,8 @@ func (ex *Exec) callByContract(fc *FuncContract, callee *types.Func, sig *types.
 	}
 	sc.st = ex.st
 	sc.old = old
+	ex.applyGhostSets(sc, fc, false)
+	sc.st = ex.st
 	for _, c := range fc.Ensures {
 		ex.assume(ex.specBool(sc, c))
 	}
@@ -804,6 +910,32 @@ func (ex *Exec) callByContract(fc *FuncContract, callee *types.Func, sig *types.
 		}
 	}
 	return out
+}
+
+// applyGhostSets performs the ghost assignments of a contract in the state of sc (the post-state of a call or of an
+// exit of the function itself). All targets and values are evaluated before any assignment.
+func (ex *Exec) applyGhostSets(sc *specCtx, fc *FuncContract, own bool) {
+	type upd struct {
+		key      string
+		ref, val *T
+	}
+	var us []upd
+	for _, g := range fc.GhostSets {
+		sc.where = g.Target.Line
+		key, ref, ok := ex.specLvalue(sc, g.Target.Expr)
+		if !ok || ref == nil || !strings.HasPrefix(key, "$G.") {
+			ex.specErr(sc, "ghostset target must be a ghost cell g(key)")
+			continue
+		}
+		v, _ := ex.specEval(sc, g.Value.Expr)
+		us = append(us, upd{key, ref, v.T})
+	}
+	for _, u := range us {
+		if own {
+			ex.checkWrite(u.key, u.ref)
+		}
+		ex.st.env[u.key] = Store(ex.get(ex.st, u.key), u.ref, u.val)
+	}
 }
 
 // applyFrame havocs what a callee may modify.
@@ -934,6 +1066,22 @@ func (ex *Exec) specLvalue(sc *specCtx, e ast.Expr) (string, *T, bool) {
 					}
 				}
 			}
+		}
+		if id, ok := e.Fun.(*ast.Ident); ok && (id.Name == "mapHas" || id.Name == "mapVal" || id.Name == "mapLen") && len(e.Args) == 1 {
+			m, _ := ex.specEval(sc, e.Args[0])
+			mt, ok := m.Typ.Underlying().(*types.Map)
+			if !ok {
+				ex.specErr(sc, "mapOf: %s is not a map", exprString(e.Args[0]))
+				return "", nil, false
+			}
+			has, val := ex.mapHeaps(mt)
+			switch id.Name {
+			case "mapHas":
+				return has, m.T, true
+			case "mapVal":
+				return val, m.T, true
+			}
+			return "$M.len", m.T, true
 		}
 		if id, ok := e.Fun.(*ast.Ident); ok {
 			if gd, ok := ex.prog.contracts.Ghosts[id.Name]; ok && !gd.Fn {
@@ -1132,7 +1280,11 @@ func (ex *Exec) builtinAppend(e *ast.CallExpr) Val {
 	}
 	if e.Ellipsis.IsValid() {
 		t := ex.eval(e.Args[1])
+		ex.checkAppendAlias(e.Args[0], s, Eq(SLen(t.T), I(0)))
 		return Val{ex.appendSlices(s.T, t.T, elem), typ}
+	}
+	if len(e.Args) > 1 {
+		ex.checkAppendAlias(e.Args[0], s, False)
 	}
 	cur := s.T
 	for _, a := range e.Args[1:] {
